@@ -94,6 +94,10 @@ def leaves_1d():
             continue
         if name == "Logit":
             continue  # = Sigmoid
+        if name == "Tanh":
+            # atanh of a float64 in (-1, 1) is at most 18.7: like the clamp-bounded leaves, only allowed as the last leaf
+            inv["Inv(Tanh)"] = ((lambda b=b: T.InverseTransform(b())), "S", "B")
+            continue
         inv["Inv(" + name + ")"] = ((lambda b=b: T.InverseTransform(b())), to, "B" if name == "Sigmoid" else ti)
     L.update(inv)
     return L
@@ -150,8 +154,8 @@ def grid(tp, n, xmax=1e13):
         x = 1 / (1 + np.exp(-u))
         return x, x * (1 - x) * du
     if tp == "P":
-        du = 80.0 / n
-        u = -40 + du * (np.arange(n) + 0.5)
+        du = 1400.0 / n  # x = exp(u) over the whole float64 range: chains with Cauchy-type leaves have 1/x tails in log x
+        u = -700 + du * (np.arange(n) + 0.5)
         x = np.exp(u)
         return x, x * du
     if tp == "S":
@@ -200,7 +204,10 @@ def check_flow_1d(names, base, seed, n):
     for k, ctx in enumerate(ctxs):
         try:
             heavy = names[0].startswith("LogTanh")  # only the forward LogTanh (always the first leaf) has the exp(z/alpha) tails
-            I, I2 = integrate_flow_1d(flow, tp, 2 * n if heavy else n, ctx, xmax=1e150 if heavy else 1e6)  # (LogTanh with cut 0.5: alpha is smaller, tails even heavier, still < 1e13 for |z| <= 8)
+            xmax = 1e150 if heavy else 1e6
+            if any(k.startswith("Inv(LogTanh") for k in names):
+                xmax = min(xmax, 60.0)  # the inverse of LogTanh is exp(x/alpha)/beta: it overflows float64 beyond |x| ~ 250 and the density is exactly 0 long before
+            I, I2 = integrate_flow_1d(flow, tp, 2 * n if heavy else n, ctx, xmax=xmax)  # (LogTanh with cut 0.5: alpha is smaller, tails even heavier, still < 1e13 for |z| <= 8)
         except Exception as e:
             out.append(("evaluate", "log_prob raises %s on the data space" % type(e).__name__, "%s: log_prob on the %s grid raised %s: %s" % (label, tp, type(e).__name__, str(e)[:100])))
             return out
